@@ -277,6 +277,14 @@ def elemInFragment (elem : Name) : Bool :=
 
 def nameOk (n : Name) : Bool := n.all inAlphabet
 
+/-- characters with a meaning in the regular-expression syntax (the guard of `implMatch_eq_glob`) -/
+def isMeta (c : Char) : Bool :=
+  c = '.' || c = '+' || c = '?' || c = '(' || c = ')' || c = '[' || c = ']' || c = '|' || c = '^' || c = '$' ||
+  c = '\\' || c = '{' || c = '}' || c = '*'
+
+/-- every character of the element other than `*` is an ordinary character -/
+def plainElem (elem : Name) : Bool := elem.all (fun c => c = '*' || !isMeta c)
+
 /-! ## Expansion -/
 
 def splitOn (sep : Char) : List Char → List (List Char)
@@ -346,11 +354,22 @@ def insertU (x : Name) : List Name → List Name
 /-- the sorted key set of the result map -/
 def sortU (l : List Name) : List Name := l.foldr insertU []
 
+/-- the loop over the comma list: the first element whose regular expression does not compile aborts the call -/
+def collectElems (f : Name → Option (List Name)) : List Name → Option (List Name)
+  | [] => some []
+  | e :: r =>
+    match f e with
+    | none => none
+    | some l =>
+      match collectElems f r with
+      | none => none
+      | some l' => some (l ++ l')
+
 /-- the names collected in `finalResultsMap` (`none` = compile error) -/
 def collect (e : Name) (org : Org) (isElastic : Bool) (tables : List (Org × Name)) (aliases : List AliasEntry) : Option (List Name) :=
   if e = ['*'] then
     some ((tablesOf org tables).filter (fun n => !isExcluded n && (isElastic || !hasInfix ".kibana".toList n)))
-  else ((splitOn ',' e).mapM (expandElem org tables aliases)).map List.flatten
+  else collectElems (expandElem org tables aliases) (splitOn ',' e)
 
 /-- `ExpandAndReturnIndexNames(expr, org, isElastic, nil)` -/
 def expand (expr : Name) (org : Org) (isElastic : Bool) (tables : List (Org × Name)) (aliases : List AliasEntry) : List Name :=
@@ -419,6 +438,7 @@ def Meta.deleteKey (m : Meta) (key : Nat) : Meta :=
   | none => m
   | some s =>
     let all' := m.all.filter (·.key ≠ key)
+    if s.table = [] then { m with all := all' } else     -- `if tName == "" { return }`
     match lookupT s.table m.byTable with
     | none => { m with all := all' }
     | some l => { all := all', byTable := putT s.table (l.filter (·.key ≠ key)) m.byTable }
